@@ -186,6 +186,7 @@ class CorruptRunner {
   // For a damaged log / MANIFEST / CURRENT the clause ("may cost records or make open fail, but never yields a value that
   // was not written or a partially applied batch") carries no option precondition: such files are judged a second time
   // with paranoid_checks=0, where recovery skips what it cannot read instead of failing.
+  long njudged_tables = 0, after_compaction = 0;
   bool judge(const Mutation &m, int paranoid = 1) {
     const char *cls = io_file_class(m.file);
     bool is_table = !strcmp(cls, "table");
@@ -209,6 +210,28 @@ class CorruptRunner {
     } else {
       ldb_readopt_t ro = *ldb_readopt_default;
       ro.verify_checksums = 1;
+      // Every third damaged table is judged a second time after a full manual compaction has been attempted on the
+      // damaged database: a compaction that reads the damaged table must fail (or carry every live key over), never
+      // install a result that silently lacks live keys (added after seed C11e).  Reads are judged by the same rule.
+      int rounds = (is_table && paranoid && (njudged_tables++ % 3) == 0) ? 2 : 1;
+      for (int round = 0; round < rounds && fail_msg.empty(); round++) {
+      if (round == 1) {
+        // compact the level that holds the damaged table (with whatever overlaps it one level down); when that table is
+        // the only input -- it sits in the deepest populated level -- a compaction that overlooks the read error would
+        // install an empty result and delete the table
+        int lvl = -1;
+        char *txt = nullptr;
+        if (ldb_property(db, "leveldb.sstables", &txt) && txt) {
+          Layout L; std::string err;
+          uint64_t num = strtoull(m.file.c_str(), nullptr, 10);
+          if (parse_layout(txt, L, &err)) for (int lv = 0; lv < 7; lv++) for (auto &f : L.levels[lv]) if (f.number == num) lvl = lv;
+          ldb_free(txt);
+        }
+        if (lvl >= 0 && lvl <= 5) ldb_test_compact_range(db, lvl, nullptr, nullptr);
+        else ldb_compact(db, nullptr, nullptr);
+        after_compaction++;
+        if (lvl >= 0) rep->count(sfmt("rejudged_after_compaction_of_level_%d", lvl));
+      }
       // point lookups
       for (auto &e : ever) {
         const std::string &k = e.first;
@@ -270,6 +293,8 @@ class CorruptRunner {
           }
           for (auto &mk : marks) if (mk.second != 3 && fail_msg.empty()) fail_msg = sfmt("batch %d is partially applied", mk.first);
         }
+      }
+      if (round == 1 && !fail_msg.empty()) fail_msg += " [after a manual compaction of the damaged database]";
       }
       ldb_close(db);
     }
@@ -435,6 +460,7 @@ int main(int argc, char **argv) {
       printf("FAIL property=%s case=%s msg=%s\n", v.prop.c_str(), fn.c_str(), v.msg.c_str());
       rc = 3;
     }
+    rep.count("table_damage_rejudged_after_compaction", r.after_compaction);
     r.cleanup();
   }
   if (!out.empty()) {
